@@ -345,6 +345,7 @@ def b3(ctx, F, nodes):
         # mutators of the list between generation and the loop
         bad = []
         gens = 0
+        retained_q = []
         for n, anc in hir.walk(nd.body):
             if n.get("k") == "MethodCall":
                 r = hir.strip(n["recv"])
@@ -365,6 +366,7 @@ def b3(ctx, F, nodes):
                                 cb = cb[1]
                             if pn_ and cb[:2] == ("call", "chess::move_struct::Move::is_tactical_move") and len(cb[2]) == 1 and \
                                     hir.fmt(cb[2][0], 40).lstrip("*&") == pn_[0]:
+                                retained_q.append(hir.line(n))
                                 continue
                     if p == E and name in ("swap_remove", "remove"):
                         # the root's repetition filter: one removal, control-dependent on a comparison with the game's move history
@@ -418,6 +420,16 @@ def b3(ctx, F, nodes):
             if k == "Continue" and p == Q and gf == ["Move::is_tactical_move(_move)"] and not gt:
                 continue
             unknown.append((k, line, gt, gf))
+        if p == Q:
+            # the capture-only rule itself: the extension searches tactical moves only (the reference's leaf rule; with every move
+            # extended the recursion has no end either) - a `continue` / `if` on the move in the loop, or a retain ahead of it
+            tg = ("Move::is_tactical_move(_move)", True)
+            unfiltered = [c["line"] for c in loop["searches"] if tg not in c["guards"]]
+            ctx.check("C09.B5", "extension-searches-tactical-moves-only", bool(loop["searches"]) and (not unfiltered or bool(retained_q)), fn=p,
+                      file=nd.fn["file"], line=unfiltered[0] if unfiltered else hir.line(loop["match"]),
+                      what="the capture-only extension searches moves that are not tactical: the value is no longer that of the leaf rule "
+                           "(and the extension no longer ends by running out of captures)",
+                      expected="the recursive call only under is_tactical_move(move)", found={"unfiltered searches at lines": unfiltered})
         ctx.check("C09.B3", "loop-left-only-at-a-cut-off:" + short, not unknown, fn=p, file=nd.fn["file"],
                   line=unknown[0][1] if unknown else hir.line(loop["match"]),
                   what="the move loop is left, or a move is skipped, on a condition that is neither the beta cut-off nor (quiescence only) "
